@@ -13,9 +13,9 @@ from vf.runner import UnitSpec
 from vf.unit import eq, holds
 
 
-def region_sym(k, texcb_sym=False, rsize=None):
+def region_sym(k, texcb_sym=False, rsize=None, regions=None):
     sym, st = {}, {}
-    for r in range(k):
+    for r in (range(k) if regions is None else regions):
         sym['drsrs[%d]' % r] = 0xFF3F if rsize is None else 0xFF01  # SD bits, RSize, En
         if rsize is not None:
             st['drsrs[%d]' % r] = rsize[r] << 1
@@ -26,11 +26,20 @@ def region_sym(k, texcb_sym=False, rsize=None):
     return sym, st
 
 
-def mk_translate(k, ispriv, iswrite, texcb_sym=False, arch=7):
+def mk_translate(k, ispriv, iswrite, texcb_sym=False, arch=7, regions=None):
+    """regions = None: regions 0..k-1 symbolic, MPUIR.DRegion = k.  regions = [..]: MPUIR.DRegion = k, the named
+    regions symbolic and every other region below k disabled (DRSR = 0) -- reaches the top of the region file
+    (k = number_of_mpu_regions = 12) without 12 simultaneously symbolic regions"""
     def fn(env):
         from armulator.armv6.arm_exceptions import DataAbortException
         cfg, ov = MC.std_cfg(arch=arch)
-        sym, st = region_sym(k, texcb_sym)
+        sym, st = region_sym(k, texcb_sym, regions=regions)
+        if regions is not None:
+            for r in range(k):
+                if r not in regions:
+                    st['drsrs[%d]' % r] = 0
+                    st['drbars[%d]' % r] = 0
+                    st['dracrs[%d]' % r] = 0
         sym['sctlr'] = (1 << 0) | (1 << 17)  # M, BR symbolic
         st['mpuir'] = k << 8
         m = MC.Machine(env, cfg, ov, thumb=False, mode=('svc' if ispriv else 'usr'), sym_sys=sym, set_sys=st)
@@ -75,6 +84,18 @@ def units(tier, seed=0):
                 us.append(UnitSpec('translate_p/k%d/%s/%s' % (k, 'priv' if ispriv else 'user', 'w' if iswrite else 'r'),
                                    'vf.c14', 'mk_translate', dict(k=k, ispriv=ispriv, iswrite=iswrite),
                                    max_paths=400000, max_seconds=3000, weight=10 ** k))
+    # the whole region file in use (DRegion = number_of_mpu_regions = 12): two symbolic regions at chosen indices,
+    # the others disabled -- the top region (11) and the bottom one (0) take part in the priority rule
+    sets = [[0, 11], [10, 11]] if tier == 'quick' else [[0, 11], [10, 11], [5, 11], [0, 1], [4, 9], [3, 7, 11]]
+    for rs in sets:
+        for ispriv in (False, True):
+            for iswrite in (False, True):
+                if tier == 'quick' and ispriv == iswrite:
+                    continue
+                us.append(UnitSpec('translate_p/full12/r%s/%s/%s' % ('-'.join(map(str, rs)), 'priv' if ispriv else 'user',
+                                                                    'w' if iswrite else 'r'), 'vf.c14', 'mk_translate',
+                                   dict(k=12, ispriv=ispriv, iswrite=iswrite, regions=rs),
+                                   max_paths=400000, max_seconds=3000, weight=10 ** len(rs)))
     for ispriv in (False, True):
         for iswrite in (False, True):
             us.append(UnitSpec('translate_p/k1-texcb/%s/%s' % ('priv' if ispriv else 'user', 'w' if iswrite else 'r'),
@@ -91,6 +112,8 @@ META = {
                    'B5 pseudocode oracle (highest-numbered enabled hit region, subregion rule for sizes >= 256 bytes, '
                    'AP table, background rule).',
     'bounds': ['k <= 2 simultaneously symbolic regions (quick), k <= 3 (thorough); MPUIR.DRegion = k',
+               'MPUIR.DRegion = 12 (the configured number of regions) with 2 (thorough: up to 3) symbolic regions at '
+               'stated indices incl. region 0 and region 11, all other regions disabled',
                'TEX/C/B/S held at one value per region except the k=1 units where they are symbolic',
                'UNPREDICTABLE region programming (size < 4 bytes, misaligned base, AP=100/111) excluded'],
     'outside': ['more than 3 simultaneously symbolic regions (priority is pairwise; not proved for 12)',
